@@ -28,7 +28,7 @@ def budget(tier):
 
 
 def gen_case(rng, idx, tier):
-    if idx % 400 == 7:
+    if idx % 401 == 7:
         return {"lane": "real", "seed": rng.randrange(1 << 30), "cores": rng.choice([1, 2, 3]), "n": rng.randint(6, 10)}
     c = poolcase.gen_pool_case(rng, faults=(idx % 3 == 0), bias={"cancel": 3, "enqueue": 3})
     # a tail of independent tasks after the stressful prefix
